@@ -8,6 +8,20 @@ Sub-checks
   free        free-running threads looping over pool entries under sys.setswitchinterval(1e-6)
   reentrant   probes that call glom() / Glommer.glom() / Spec.glom() recursively to depth <= 3 on other pool
               entries, including inner failures caught by an outer Coalesce / default=
+  escape      an error raised at the bottom of a nest of 2-3 glom() calls (glom / Spec.glom / Glommer.glom, level i+1
+              calling level i from a callable) leaves every level: what leaves level i - class, args, target-spec trace -
+              must be what level i produces alone (its callable raising the same error itself); by construction the trace
+              begins with the target and spec of THAT call.  Error classes glom can re-create from their args and
+              classes it cannot (keyword-only / arity-changing / args-transforming constructor, __copy__ that raises or
+              yields another class, frozen instances, non-GlomErrors of both sorts); the callables on the way read str(e),
+              only e.args, or nothing
+  registering ENUMERATED: evaluation A registers a handler for a type from one of its callables and then uses it;
+              evaluation B looks the same type up, in a second thread under every interleaving of their yield points
+              (one of A's is INSIDE register(): the support-detection function of an extension operation, or the
+              __subclasscheck__ of the metaclass of the type), or re-entrantly from that callable.  A must report what it
+              reports alone (the registered handler); B what it reports alone before / after the registration
+  lookuprace  ENUMERATED mirror image: the yield point is inside B's handler lookup (the __instancecheck__ of the metaclass
+              of an unrelated registered type) and A registers meanwhile
 
 Oracle: each evaluation's outcome - value, or error class AND full trace text - must equal the outcome of the
 same evaluation run alone (address-free reprs make the text comparable).
@@ -31,7 +45,9 @@ PROPERTY = 'C20'
 RULE = ('pool of 23 evaluations covering scope bindings, Vars/globals, modes, Group accumulators, argument-mode containers, '
         'shared spec objects, a shared scope= mapping and a shared Glommer, successful and failing (error trace text compared); '
         'all pairs x all interleavings and all triples x all interleavings (2 yield points each) are enumerated. '
-        'Non-trivial = a schedule with >= 2 context switches, or a nesting of depth >= 2.')
+        'Non-trivial = a schedule with >= 2 context switches, or a nesting of depth >= 2. '
+        'escape: nests of 2-3 calls whose bottom raises one of 9 error classes (5 of them GlomErrors that copy.copy cannot rebuild); '
+        'registering / lookuprace: registry x operation x yield point x target type x earlier registration x all interleavings, enumerated.')
 ASSUMPTIONS = [
     'the scheduler owns the schedule at user-callable granularity only; pre-emption inside glom bytecode is sampled by the free-running sub-check',
     'the isolated outcome of every pool evaluation is deterministic (checked: two isolated runs must agree)',
@@ -522,8 +538,541 @@ def check_reentrant(recipe, ctx):
     ctx.outcome([[o[1] for o in observed], depth_max])
 
 
+# ---------------------------------------------------------------------------
+# escape: an error leaves a re-entrant call and then the enclosing call(s)
+#
+# "glom calls made re-entrantly from callables ... inside a running glom call each produce exactly the result, error and
+# error trace they produce when run alone": a nest of 2-3 calls, level i+1 calling level i from a callable of its spec,
+# level 0 raising.  Whatever leaves level i - seen by the callable of level i+1, or by the caller of the outermost call -
+# must be the error level i produces when it runs alone (its callable raising the same error itself, nothing nested
+# below): same class, same args, and the target-spec trace of level i - its root target, its specs - not that of a call
+# nested below it.  The errors are of classes glom can re-create from their args, and of classes it cannot (keyword-only
+# or arity-changing constructor, constructor that transforms its args, __copy__ that raises or yields another class):
+# the statement makes no difference between them.
+
+class KwOnlyError(GlomError):
+    def __init__(self, *, code):
+        super().__init__(code)
+        self.code = code
+
+    def get_message(self):
+        return 'kwonly refuses (code %s)' % (self.code,)
+
+
+class ExtraArgError(GlomError):
+    def __init__(self, code, extra):
+        super().__init__(code)
+        self.extra = extra
+
+
+class TransformError(GlomError):
+    def __init__(self, code):
+        super().__init__('E%s' % (code,))
+
+
+class CopyRaisesError(GlomError):
+    def __copy__(self):
+        raise RuntimeError('no copies of %s' % type(self).__name__)
+
+
+class CopyOtherClassError(GlomError):
+    def __reduce__(self):
+        return (GlomError, self.args)
+
+
+class PlainGlomError(GlomError):
+    pass
+
+
+class FrozenError(GlomError):
+    def __init__(self, code):
+        super().__init__(code)
+        self.__dict__['sealed'] = True
+
+    def __setattr__(self, name, value):
+        if self.__dict__.get('sealed') and not name.startswith('__'):
+            raise AttributeError('%s is frozen' % type(self).__name__)
+        super().__setattr__(name, value)
+
+
+class KwOnlyPlainError(Exception):
+    """not a GlomError, and not re-creatable: documented to leave glom() as it is"""
+    def __init__(self, *, code):
+        super().__init__(code)
+
+
+ERR_MAKERS = {
+    'kwonly': (KwOnlyError, lambda c: KwOnlyError(code=c)),
+    'extra': (ExtraArgError, lambda c: ExtraArgError(c, 'more')),
+    'transform': (TransformError, lambda c: TransformError(c)),
+    'copy-raises': (CopyRaisesError, lambda c: CopyRaisesError('cr', c)),
+    'copy-other-class': (CopyOtherClassError, lambda c: CopyOtherClassError('co', c)),
+    'plain': (PlainGlomError, lambda c: PlainGlomError('pl', c)),
+    'frozen': (FrozenError, lambda c: FrozenError(c)),
+    'builtin': (ValueError, lambda c: ValueError('v%s' % (c,))),
+    'builtin-kwonly': (KwOnlyPlainError, lambda c: KwOnlyPlainError(code=c)),
+}
+ERR_KINDS = sorted(ERR_MAKERS)
+# GlomError subclasses copy.copy() cannot rebuild as they are
+UNCOPYABLE = ('kwonly', 'extra', 'transform', 'copy-raises', 'copy-other-class')
+# kinds whose error carries a target-spec trace when it leaves glom(): GlomErrors, and builtin errors glom can wrap
+TRACED = UNCOPYABLE + ('plain', 'builtin')
+ESC_SHAPES = ('dict', 'chain', 'list', 'branch')
+ESC_VIAS = ('glom', 'spec', 'glommer')
+ESC_LOOKS = ('none', 'str', 'args')
+MIN_WIDTH = 50          # a trace line of at most this many characters is never shortened
+
+
+class Step(object):
+    def __init__(self, run, i):
+        self.run, self.i = run, i
+        self.__name__ = 'step%d' % i
+
+    def __call__(self, t):
+        return self.run.step(self.i, t)
+
+    def __repr__(self):
+        return 'Step(%d)' % self.i
+
+
+def trace_head(text):
+    """the target-spec trace of a rendered error: the lines between the two headlines and the python traceback"""
+    lines = text.split('\n')
+    if lines[:2] != ['error raised while processing, details below.', ' Target-spec trace (most recent last):']:
+        return None
+    out = []
+    for line in lines[2:]:
+        if line[:3] not in (' - ', ' + ') and not line.startswith(' |'):
+            break
+        out.append(line)
+    return out
+
+
+class EscapeRun(object):
+    def __init__(self, recipe):
+        self.kind = recipe['err']
+        self.code = recipe['code']
+        self.levels = recipe['levels']
+        self.cls, self.make = ERR_MAKERS[self.kind]
+        self.alone = None           # level that runs alone: its callable raises the error itself
+        self.seen = {}              # level -> what the callable of the level above saw leaving it
+        self.glommer = Glommer()
+        self.calls = []
+        for i, lv in enumerate(self.levels):
+            k, t, stp = 'k%d' % i, 't%d' % i, Step(self, i)
+            shape = lv['shape']
+            if shape == 'dict':
+                target, spec = {k: t}, {'o%d' % i: (k, stp)}
+            elif shape == 'chain':
+                target, spec = {k: t}, (k, stp)
+            elif shape == 'list':
+                target, spec = {k: [t]}, (k, [stp])
+            else:
+                # the first branch fails with a PathAccessError (a KeyError), the second one holds the callable
+                target, spec = {k: t}, Coalesce('n', stp, skip_exc=KeyError)
+            self.calls.append((target, spec, lv['via']))
+
+    def call(self, i):
+        target, spec, via = self.calls[i]
+        if via == 'glom':
+            return glom.glom(target, spec)
+        if via == 'spec':
+            return Spec(spec).glom(target)
+        return self.glommer.glom(target, spec)
+
+    def observe(self, e, render):
+        return {'class': type(e).__name__, 'isinstance': isinstance(e, self.cls), 'args': repr(e.args),
+                'head': trace_head(ADDR.sub('', str(e))) if render else 'not rendered',
+                'text': ADDR.sub('', str(e)) if render else 'not rendered'}
+
+    def step(self, i, t):
+        if i == 0 or i == self.alone:
+            raise self.make(self.code)
+        look = self.levels[i - 1]['look']
+        if look == 'none' or self.alone is not None:
+            return self.call(i - 1)
+        try:
+            return self.call(i - 1)
+        except Exception as e:
+            # e.g. logged by the callable: a pure observation
+            self.seen[i - 1] = self.observe(e, look == 'str')
+            raise
+
+    def outermost(self, i):
+        try:
+            r = self.call(i)
+        except Exception as e:
+            return self.observe(e, True)
+        return {'class': None, 'value': repr(r)}
+
+
+def gen_escape(draw):
+    depth = draw(st.sampled_from([2, 2, 3]))
+    return {'err': draw(st.sampled_from(ERR_KINDS)), 'code': draw(st.sampled_from(range(1, 8))),
+            'levels': [{'via': draw(st.sampled_from(ESC_VIAS)), 'shape': draw(st.sampled_from(ESC_SHAPES)),
+                        'look': draw(st.sampled_from(ESC_LOOKS))} for _ in range(depth)]}
+
+
+def check_escape(recipe, ctx):
+    run = EscapeRun(recipe)
+    top = len(run.levels) - 1
+    nested_top = run.outermost(top)
+    nested = dict(run.seen)         # level -> what was seen leaving it
+    nested[top] = nested_top
+    kind = recipe['err']
+    ctx.label('err-' + kind, 'depth-%d' % (top + 1))
+    if kind in UNCOPYABLE:
+        ctx.label('uncopyable-glomerror')
+    if any(i != top and nested[i]['head'] != 'not rendered' for i in nested):
+        ctx.label('rendered-on-the-way')
+    ctx.nontrivial(True)
+    for i in sorted(nested):
+        got = nested[i]
+        target, spec, via = run.calls[i]
+        where = 'level %d of %d (%s, target %r, spec %r), error kind %s' % (i, top + 1, via, target, spec, kind)
+        if got['class'] is None:
+            raise Mismatch('escape-lost', '%s: the call returned %s although its callable raised' % (where, got['value']))
+        # the same call alone: its callable raises the error itself
+        ref = EscapeRun(recipe)
+        ref.alone = i
+        alone = ref.outermost(i)
+        if alone['class'] is None or not alone['isinstance']:
+            raise Mismatch('escape-alone', '%s: run alone the call gives %r, not an instance of the class its callable raised' % (where, alone))
+        if kind in TRACED:
+            # by construction: the trace of a call begins with the target and the spec that call was given
+            want = [' - Target: %r' % (target,), ' %s Spec: %r' % ('+' if recipe['levels'][i]['shape'] == 'branch' else '-', spec)]
+            if max(len(w) for w in want) > MIN_WIDTH:
+                raise HarnessBug('escape: expected trace line longer than the minimal width: %r' % (want,))
+            if (alone['head'] or [])[:2] != want:
+                raise Mismatch('escape-alone', '%s: run alone, the trace does not begin with the target and spec of the call:\n%s'
+                               % (where, alone['text']))
+        for field in ('class', 'isinstance', 'args'):
+            if got[field] != alone[field]:
+                raise Mismatch('escape-error-changed', '%s: nested, the error leaving the call has %s %r; alone %r'
+                               % (where, field, got[field], alone[field]))
+        if got['head'] == 'not rendered':
+            continue
+        if kind in TRACED and (got['head'] or [])[:2] != want:
+            raise Mismatch('enclosing-trace-lost', '%s: the error that left this call after coming out of the call nested in its callable '
+                           'does not show the trace of this call (expected to begin with %r):\n%s' % (where, want, got['text']))
+        if got['head'] != alone['head']:
+            raise Mismatch('enclosing-trace-lost', '%s: the target-spec trace of the error leaving this call is\n%s\nbut when the call '
+                           'runs alone (its callable raising the same error itself) it is\n%s'
+                           % (where, '\n'.join(got['head'] or ['<none>']), '\n'.join(alone['head'] or ['<none>'])))
+    ctx.outcome([kind, top + 1, nested_top['class'], (nested_top['head'] or ['<no trace>'])[:2]])
+
+
+# ---------------------------------------------------------------------------
+# registering: an evaluation whose callable registers a handler for a type and then uses it, while another evaluation
+# looks the same type up
+#
+# Evaluation A = glom(obj, (a1, {'prior': <access>, 'after': (RegStep, a3, <access>)})): its callable RegStep calls
+# register(Rec, get=h) / register(Rec, iterate=h) and A then accesses obj (a Rec, or an instance of a subclass) through
+# the registry.  Run alone, A reports what the registered handler gives (register() is documented to take effect for
+# the calls that follow).  Evaluation B = glom(obj2, (b1, <access>, b2)) looks the same type up.  B runs in a second
+# thread under every interleaving of the yield points of the two (3 + 2, ENUMERATED), or re-entrantly from the one user
+# callable that runs in the middle of a registration.  That callable is the yield point of A inside register(): the
+# support-detection function (auto_func) of an extension operation, or the __subclasscheck__ of the metaclass of the type
+# being registered.  The statement: A produces exactly the result it produces alone, whatever B did meanwhile.  B itself
+# legitimately depends on whether it came before or after the registration (a registration is a global effect by
+# design): it must report one of the two outcomes it reports alone (before / after), nothing else.
+# Not asserted here (not a statement about concurrent or re-entrant glom CALLS): what calls made after both evaluations
+# finished report; a bare register() outside any glom call racing with a glom call - that is history (C06) and handler
+# choice (C13).
+
+_WINDOW_HOOKS = {}
+_GLOBAL_OP = []
+
+
+def fire_window(kind, type_obj):
+    hook = _WINDOW_HOOKS.pop((kind, type_obj), None)        # once per registration
+    if hook is not None:
+        hook()
+
+
+def window_probe(type_obj):
+    """support detection of the extension operation 'c20_window': never supported"""
+    fire_window('autofunc', type_obj)
+    return False
+
+
+class HookMeta(type):
+    def __subclasscheck__(cls, sub):
+        fire_window('subclasscheck', cls)
+        return type.__subclasscheck__(cls, sub)
+
+    def __instancecheck__(cls, obj):
+        fire_window('instancecheck', cls)
+        return type.__instancecheck__(cls, obj)
+
+
+def new_get(obj, name):
+    return ['new_get', name]
+
+
+def old_get(obj, name):
+    return ['old_get', name]
+
+
+def new_iterate(obj):
+    return iter(['new_it'])
+
+
+def old_iterate(obj):
+    return iter(['old_it'])
+
+
+class RegStep(object):
+    def __init__(self, world):
+        self.world = world
+        self.__name__ = 'regstep'
+
+    def __call__(self, t):
+        w = self.world
+        if w.recipe['window'] in REGISTER_SIDE:
+            _WINDOW_HOOKS[(w.recipe['window'], w.Rec)] = w.in_window
+        try:
+            w.register(w.Rec, **{w.recipe['op']: new_get if w.recipe['op'] == 'get' else new_iterate})
+        finally:
+            _WINDOW_HOOKS.pop((w.recipe['window'], w.Rec), None)
+        w.registered = True
+        return t
+
+    def __repr__(self):
+        return 'RegStep()'
+
+
+class ArmStep(object):
+    """lookup-side yield point: the next isinstance() check against the registered type Other (made by the handler lookup
+    of the step that follows) is a user callable, the __instancecheck__ of its metaclass"""
+    def __init__(self, world, on):
+        self.world, self.on = world, on
+        self.__name__ = 'arm' if on else 'disarm'
+
+    def __call__(self, t):
+        w = self.world
+        if self.on and w.recipe['window'] == 'instancecheck':
+            _WINDOW_HOOKS[('instancecheck', w.Other)] = w.in_lookup
+        else:
+            _WINDOW_HOOKS.pop(('instancecheck', w.Other), None)
+        return t
+
+    def __repr__(self):
+        return 'ArmStep(%s)' % self.on
+
+
+REGISTER_SIDE = ('autofunc', 'subclasscheck')
+
+
+class RegWorld(object):
+    """fresh types, a fresh registry (Glommer) or the global one, and the two evaluations"""
+    def __init__(self, recipe):
+        self.recipe = recipe
+        self.ctl = Ctl()
+        self.window_seen = 0
+        self.registered = False
+        self.other = None           # how B is run from inside the window, if it is
+        self.res_b = []
+        body = {'__init__': lambda s: s.__dict__.update(x='attr-x'), '__repr__': lambda s: type(s).__name__ + '()'}
+        self.Base = HookMeta('Base', (object,), dict(body))
+        self.Rec = HookMeta('Rec', (self.Base,), {})
+        self.Sub = HookMeta('SubRec', (self.Rec,), {})
+        self.cls = self.Rec if recipe['kind'] == 'same' else self.Sub
+        self.Other = HookMeta('Other', (object,), {})
+        self.lookup_seen = 0
+        if recipe['reg'] == 'glommer':
+            g = Glommer()
+            g.scope[TargetRegistry].register_op('c20_window', auto_func=window_probe)
+            self.register, self.glom = g.register, g.glom
+        else:
+            if not _GLOBAL_OP:
+                glom.register_op('c20_window', auto_func=window_probe)
+                _GLOBAL_OP.append(True)
+            self.register, self.glom = glom.register, glom.glom
+        op = recipe['op']
+        if recipe['old'] == 'registered':
+            # (an earlier registration of the BASE class: the type itself is registered by evaluation A for the first time)
+            self.register(self.Base, **{op: old_get if op == 'get' else old_iterate})
+        # an unrelated registered type: a handler lookup for an object of another type asks isinstance(obj, Other)
+        self.register(self.Other, get=getattr)
+        y = lambda name: Y(self.ctl, name)
+        if op == 'get':
+            access = lambda: glom.Path('x') if recipe['alt'] else 'x'
+        else:
+            access = lambda: Iter().all() if recipe['alt'] else [T]
+        prior = Coalesce(access(), default='unsupported') if recipe['prior'] else Val('skipped')
+        self.spec_a = (y('a1'), {'prior': prior, 'after': (RegStep(self), y('a3'), access())})
+        self.spec_b = (y('b1'), ArmStep(self, True), access(), ArmStep(self, False), y('b2'))
+
+    def in_window(self):
+        self.window_seen += 1
+        if self.other == 'reentrant':
+            self.res_b.append(self.run_b())
+        elif self.other == 'thread':
+            self.ctl.point()
+
+    def in_lookup(self):
+        self.lookup_seen += 1
+        self.ctl.point()
+
+    def outcome(self, spec):
+        try:
+            return ('ok', ADDR.sub('', repr(self.glom(self.cls(), spec))))
+        except Exception as e:
+            return ('err', type(e).__name__, ADDR.sub('', str(e)))
+
+    def run_a(self):
+        out = self.outcome(self.spec_a)
+        if self.window_seen != (1 if self.recipe['window'] in REGISTER_SIDE else 0):
+            raise HarnessBug('registering: the yield point inside register() was reached %d times (%r)' % (self.window_seen, self.recipe))
+        return out
+
+    def run_b(self):
+        return self.outcome(self.spec_b)
+
+
+REG_WORDS = sorted(set(itertools.permutations([0] * 3 + [1] * 2)))
+REG_DIMS = [('reg', ('glommer', 'global')), ('op', ('get', 'iterate')), ('window', ('autofunc', 'subclasscheck')),
+            ('kind', ('same', 'subclass')), ('old', ('unregistered', 'registered')), ('prior', (False, True)),
+            ('alt', (False, True))]
+
+
+def enum_registering(tier):
+    for combo in itertools.product(*[vals for _, vals in REG_DIMS]):
+        base = dict(zip([n for n, _ in REG_DIMS], combo))
+        if base['reg'] == 'global' and base['op'] == 'iterate' and base['old'] == 'unregistered':
+            # the text of UnregisteredTarget lists the registered types: in the default registry that list grows with every
+            # case of this process, so B's error text is not comparable between the reference run and the scheduled run
+            continue
+        yield dict(base, other='reentrant', word=None)
+        for w in REG_WORDS:
+            yield dict(base, other='thread', word=list(w))
+
+
+LOOKUP_WORDS = sorted(set(itertools.permutations([0] * 2 + [1] * 3)))
+
+
+def enum_lookuprace(tier):
+    """the mirror image: the yield point is inside the handler LOOKUP of evaluation B (the __instancecheck__ of the metaclass
+    of an unrelated registered type); evaluation A registers its handler without being interrupted.  A: 2 yield points,
+    B: 3, every interleaving"""
+    for combo in itertools.product(*[vals for _, vals in REG_DIMS]):
+        base = dict(zip([n for n, _ in REG_DIMS], combo))
+        if base['window'] != 'autofunc' or base['prior']:
+            continue            # (one case per remaining combination; an earlier access by A would pre-empt B's lookup)
+        if base['reg'] == 'global' and base['op'] == 'iterate' and base['old'] == 'unregistered':
+            continue
+        for w in LOOKUP_WORDS:
+            yield dict(base, window='instancecheck', other='thread', word=list(w))
+
+
+def check_registering(recipe, ctx):
+    op, old = recipe['op'], recipe['old']
+    lookup_side = recipe['window'] not in REGISTER_SIDE
+    # by construction (register() documentation): before the registration the old handler / plain attribute access /
+    # no iteration, after it the registered handler
+    new_val = ['new_get', 'x'] if op == 'get' else ['new_it']
+    if op == 'get':
+        old_val = 'attr-x' if old == 'unregistered' else ['old_get', 'x']
+    else:
+        old_val = None if old == 'unregistered' else ['old_it']
+    prior_val = 'skipped' if not recipe['prior'] else ('unsupported' if old_val is None else old_val)
+    want_a = ('ok', repr({'prior': prior_val, 'after': new_val}))
+    # alone: B before, A, B after - nothing interleaved
+    ref = RegWorld(recipe)
+    b_before = ref.run_b()
+    a_alone = ref.run_a()
+    b_after = ref.run_b()
+    if a_alone != want_a:
+        raise Mismatch('registering-alone', 'the evaluation that registers %s=... for its type and then uses it gives %r when run alone; '
+                       'by construction %r' % (op, a_alone, want_a))
+    if b_after != ('ok', repr(new_val)) or (b_before != ('ok', repr(old_val)) if old_val is not None
+                                            else b_before[:2] != ('err', 'UnregisteredTarget')):
+        raise Mismatch('registering-alone', 'the evaluation that looks the type up gives %r before and %r after the registration '
+                       '(run alone); by construction %r and %r' % (b_before, b_after, old_val, new_val))
+    for key in [k for k in _WINDOW_HOOKS if k[1] in (ref.Rec, ref.Other)]:
+        del _WINDOW_HOOKS[key]
+    w = RegWorld(recipe)
+    w.other = recipe['other']
+    if recipe['other'] == 'reentrant':
+        res_a = w.run_a()
+        res_b = w.res_b[0]
+        when = 'during'
+        ctx.label('reentrant-in-register')
+        ctx.nontrivial(True)
+    else:
+        sch = Sched(recipe['word'])
+        w.ctl.sched = sch
+        w.ctl.limit = {0: 2, 1: 3} if lookup_side else {0: 3, 1: 2}
+        res = {}
+
+        def run(i):
+            w.ctl.local.me = i
+            w.ctl.local.count = 0
+            sch.wait_turn(i)
+            try:
+                res[i] = w.run_a() if i == 0 else w.run_b()
+            except HarnessBug as e:
+                res[i] = e
+            finally:
+                sch.finish(i)
+        ths = [threading.Thread(target=run, args=(i,)) for i in (0, 1)]
+        for t in ths:
+            t.start()
+        for t in ths:
+            t.join(30)
+        if sch.stalled or any(t.is_alive() for t in ths):
+            raise HarnessBug('registering: schedule %r stalled' % (recipe['word'],))
+        if isinstance(res.get(0), HarnessBug):
+            raise res[0]
+        res_a, res_b = res.get(0), res.get(1)
+        # B's lookup happens between its two yield points; A is inside register() between its 2nd and 3rd
+        word = recipe['word']
+        pos_a, pos_b = [k for k, x in enumerate(word) if x == 0], [k for k, x in enumerate(word) if x == 1]
+        if lookup_side:
+            # A registers between its 1st and 2nd yield point; B's lookup begins after its 1st yield point and, if it
+            # reaches the yield point inside the lookup, ends after its 2nd
+            if w.lookup_seen > 1:
+                raise HarnessBug('lookuprace: the yield point inside the lookup was reached %d times' % w.lookup_seen)
+            when = 'after' if pos_a[1] < pos_b[1] else 'before' if pos_a[1] > pos_b[2] else 'during'
+            if when != 'after' and not w.lookup_seen:
+                raise HarnessBug('lookuprace: the first lookup of the type did not reach the yield point inside the lookup (%r)' % (recipe,))
+            ctx.label('register-%s-lookup' % {'after': 'before', 'before': 'after', 'during': 'during'}[when])
+        else:
+            when = 'before' if pos_b[1] < pos_a[1] else 'during' if pos_b[1] < pos_a[2] else 'after'
+            ctx.label('lookup-%s-register' % when)
+        ctx.nontrivial(switches(word) >= 2)
+    for key in [k for k in _WINDOW_HOOKS if k[1] in (w.Rec, w.Other)]:
+        del _WINDOW_HOOKS[key]
+    ctx.label('window-' + recipe['window'], 'op-' + op)
+    what = 'registry %s, op %s, yield point inside %s: %s, target: %s of the registered type, before: %s, %s' % (
+        recipe['reg'], op, 'the other evaluation\'s handler lookup' if lookup_side else 'register()', recipe['window'], 'instance' if recipe['kind'] == 'same' else 'instance of a subclass', old,
+        'other evaluation made re-entrantly from inside register()' if recipe['word'] is None else 'schedule %r' % (recipe['word'],))
+    if res_a != a_alone:
+        raise Mismatch('registration-lost', '%s: the evaluation that registers a handler and then uses it gives %r; alone %r'
+                       % (what, res_a, a_alone))
+    if when == 'during':
+        # a lookup in the middle of a registration: the statement does not say which of the two it is; the value before or
+        # the value after, or the class of error before (the text of UnregisteredTarget lists what is registered right now)
+        essence = lambda o: o if o[0] == 'ok' else o[:2]
+        allowed, fine = (b_before, b_after), essence(res_b) in (essence(b_before), essence(b_after))
+    else:
+        allowed = (b_before,) if when == 'before' else (b_after,)
+        fine = res_b in allowed
+    if not fine:
+        raise Mismatch('interference', '%s: the evaluation that looks the type up %s the registration gives %r; alone %s'
+                       % (what, when, res_b, ' / '.join(repr(o) for o in allowed)))
+    ctx.outcome([res_a, res_b])
+
+
 SUBS = [
     Sub('schedules', check_schedule, enum=enum_schedules),
     Sub('free', check_free, gen=gen_free, quick=8, thorough=64, shards=8),
     Sub('reentrant', check_reentrant, gen=gen_reentrant, quick=1200, thorough=5000),
+    Sub('escape', check_escape, gen=gen_escape, quick=480, thorough=3000,
+        floors={'uncopyable-glomerror': 0.25, 'rendered-on-the-way': 0.15, 'depth-3': 0.12}),
+    # (last: its 'global' cases leave an extension operation and fresh types in the default registry of the worker process)
+    Sub('registering', check_registering, enum=enum_registering,
+        floors={'lookup-during-register': 0.1, 'reentrant-in-register': 0.045}),
+    Sub('lookuprace', check_registering, enum=enum_lookuprace, floors={'register-during-lookup': 0.1}),
 ]
